@@ -202,6 +202,14 @@ def reject_cases(path, d):
         ("quantile-range", [path, "-m", "quantilescore", "-q", "1.5", "-type", "csv"]),
         ("quantile-range", [path, "-m", "quantilescore", "-q", "-0.1", "-type", "csv"]),
         ("quantile-range", [path, "-m", "quantilescore", "-q", "0.5,1.01", "-type", "csv"]),
+        # the offending level anywhere in the list (first, middle, last; unsorted and descending-range spellings)
+        ("quantile-range", [path, "-m", "quantilescore", "-q", "0.1,1.5,0.9", "-type", "csv"]),
+        ("quantile-range", [path, "-m", "quantilescore", "-q", "0.5,-0.2,0.9", "-type", "csv"]),
+        ("quantile-range", [path, "-m", "quantilescore", "-q", "1.5,0.5", "-type", "csv"]),
+        ("quantile-range", [path, "-m", "quantilescore", "-q", "0.5,-0.5", "-type", "csv"]),
+        ("quantile-range", [path, "-m", "quantilescore", "-q", "1.5:-0.5:0", "-type", "csv"]),
+        ("quantile-range", base + ["-q", "0.2,1.2,0.8"]), ("quantile-range", base + ["-q", "0.6,-1,0.7,0.8"]),
+        ("quantile-range", [path, "--list-quantiles", "-q", "0.3,7,0.4"]),
         ("unknown-type", [path, "-m", "mae", "-type", "table"]), ("unknown-type", [path, "-m", "mae", "-type", "CSV"]),
         ("legend-count", base + ["-leg", "a,b"]), ("legend-count", [path, path, "-m", "mae", "-type", "csv", "-leg", "a"]),
     ]
